@@ -2,7 +2,7 @@ SPECIFICATION Spec
 CONSTANTS
   Fault = "none"
   Cfgs <- MS_Cfgs
-  Soc0s <- SocMin
+  Soc0s <- SocEdges
   Dts <- Dt2
   Engs <- Bools
   ClsOn <- MS_Cls
